@@ -1298,11 +1298,19 @@ int QSexact_verify (
 )
 {
    int rval = 0;
+   QSbasis *own_basis = 0;     /* basis obtained here from the double solve */
 
    //assert(basis);
    //assert(basis->nstruct);
 
    *result = 0;
+
+   if( basis == NULL || basis->nstruct != p_mpq->qslp->nstruct ||
+       basis->nrows != p_mpq->qslp->nrows )
+   {
+      QSlog("size of basis does not match lp");
+      return 1;
+   }
             
    if( useprestep )
    {
@@ -1342,7 +1350,8 @@ int QSexact_verify (
             y_mpq = QScopy_array_dbl_mpq(y_dbl);
             
             /* test optimality of constructed solution */
-            basis = dbl_QSget_basis(p_dbl);
+            own_basis = dbl_QSget_basis(p_dbl);
+            if( own_basis ) basis = own_basis;
             rval = QSexact_optimal_test(p_mpq, x_mpq, y_mpq, basis);
             if( rval )
             {
@@ -1393,7 +1402,8 @@ int QSexact_verify (
             mpq_EGlpNumSet(y_mpq[i], dbl_d_sol[i]);
             
          /* test optimality of constructed solution */
-         basis = dbl_QSget_basis(p_dbl);
+         own_basis = dbl_QSget_basis(p_dbl);
+            if( own_basis ) basis = own_basis;
          rval = QSexact_optimal_test(p_mpq, x_mpq, y_mpq, basis);
          if( rval )
          {
@@ -1431,6 +1441,7 @@ int QSexact_verify (
       }
    }
 
+   mpq_QSfree_basis (own_basis);
    return rval;
 }
 
